@@ -279,6 +279,10 @@ var ErrDivideByZero = errs.BadValue{
 	What: "divisor", Valid: "number other than exact 0", Actual: "exact 0"}
 
 func div(rawNums ...vals.Num) (vals.Num, error) {
+	if len(rawNums) == 1 {
+		// "/ $y" is equivalent to "/ 1 $y".
+		rawNums = []vals.Num{1, rawNums[0]}
+	}
 	for _, num := range rawNums[1:] {
 		if num == 0 {
 			return nil, ErrDivideByZero
@@ -292,19 +296,12 @@ func div(rawNums ...vals.Num) (vals.Num, error) {
 	case []*big.Rat:
 		acc := &big.Rat{}
 		acc.Set(nums[0])
-		if len(nums) == 1 {
-			acc.Inv(acc)
-			return acc, nil
-		}
 		for _, num := range nums[1:] {
 			acc.Quo(acc, num)
 		}
 		return acc, nil
 	case []float64:
 		acc := nums[0]
-		if len(nums) == 1 {
-			return 1 / acc, nil
-		}
 		for _, num := range nums[1:] {
 			acc /= num
 		}
